@@ -15,6 +15,7 @@ from .. import common as C
 from .. import corr as K
 from .. import gen as G
 from . import util as U
+from . import alloctrace as AT
 
 PID = "C15"
 SIZE_MAX = 2 ** 64 - 1
@@ -120,6 +121,12 @@ def run(tier):
                 if "UNSTABLE" in a or "NOTERM" in a:
                     found = True
                     rep.finding("string-buffer", "string buffer unstable or not NUL-terminated", {"kind": "fault", "config": cfg, "line": lines[i], "observed": a[:300]})
+        # the same reads through the allocation-aware reader model (Edn.Model.ReaderA): the sequence of logical requests,
+        # of frees (each naming the block it releases) and of arena destructions must be the one the model predicts,
+        # and replayed against an independent ledger every trace must balance: nothing freed twice, nothing left
+        # live, every arena destroyed exactly once unless it is the one the returned value owns
+        if AT.run_stream(rep, rng, cfg, docs, "ledger-trace", cap=0, faults=False, opts_fn=lambda d, b: [0, 1, 9]):
+            found = True
         # registry destroyed before the values are dumped and freed
         zl = ["Z 0 %s" % C.hexs(d) for d in docs[:150]] + ["Z 0 %s" % C.hexs(b"[#ext 1 #id [1 2] #inst \"x\" #my/id {:a #ext 2}]")]
         rl = ["R 8 %s" % C.hexs(d) for d in docs[:150]] + ["R 8 %s" % C.hexs(b"[#ext 1 #id [1 2] #inst \"x\" #my/id {:a #ext 2}]")]
@@ -170,6 +177,8 @@ def run(tier):
 def replay(path):
     r = json.load(open(path))
     print(json.dumps(r, indent=1)[:2500])
+    if r.get("stream") == "alloc-trace":
+        return AT.replay(r)
     style = "wrap" if r.get("kind") == "fault" else "unity"
     exe = C.harness(style, r["config"], "san")
     out = C.run_lines(exe, [r["line"]])
